@@ -2,6 +2,15 @@
 
 package meta
 
+import "github.com/nspcc-dev/bbolt"
+
 // VerifHook intercepts every exported *DB method at entry (ovgen hookfn): the scheduler-driven
 // shard world uses it to make each metabase call a scheduling point and a crash-image point.
 var VerifHook func(db *DB, name string, args []any) ([]any, bool)
+
+// VerifSSTxID returns the id of the last committed bbolt write transaction (the on-disk metabase
+// content changes exactly when it grows): a cheap, exact change detector for crash-image capture.
+func (db *DB) VerifSSTxID() (id int) {
+	_ = db.boltDB.View(func(tx *bbolt.Tx) error { id = tx.ID(); return nil })
+	return id
+}
